@@ -623,6 +623,77 @@ func S12(tier string) *Scenario {
 	return scenFrom("S12-eleven-auctions", cfg, pre, bud, al, nil)
 }
 
+// S13: more than a hundred bids in one auction (104 placed in the preamble, the menu adds one or two),
+// two bidders alternating, so that bid ids pass 100 (the SDK's default page size, a three-digit id)
+// before the settlement walks them.
+func S13(tier string, batch bool) *Scenario {
+	cfg := world.Config{Balances: map[string]sdk.Coins{
+		"auc1": coins("400acoin"), "bid1": coins("1000bcoin"), "bid2": coins("1000bcoin"),
+	}, Params: params("", "", 1)}
+	var pre []Op
+	name := "S13-hundred-bids-fixed"
+	if batch {
+		name = "S13-hundred-bids-batch"
+		pre = append(pre, Op{Kind: "create_batch", Signer: "auc1", StartPrice: "1", MinPrice: "0.5", Sell: "150acoin", PayDenom: "bcoin", StartK: 0, EndK: 2, Sched: sched(3, 4), MaxExt: 0, Rate: "0.5"})
+	} else {
+		pre = append(pre, Op{Kind: "create_fixed", Signer: "auc1", StartPrice: "2", Sell: "300acoin", PayDenom: "bcoin", StartK: 0, EndK: 2, Sched: sched(3, 4)})
+	}
+	pre = append(pre,
+		Op{Kind: "add_allowed", AID: 0, Bidder: "bid1", Max: "120"},
+		Op{Kind: "add_allowed", AID: 0, Bidder: "bid2", Max: "90"},
+	)
+	prices := []string{"2", "3", "1", "2", "1.5"}
+	for i := 0; i < 104; i++ {
+		b := []string{"bid1", "bid2"}[i%2]
+		amt := fmt.Sprint(1 + i%2)
+		if batch {
+			pre = append(pre, Op{Kind: "place", Signer: b, AID: 0, BidType: ref.BidMany, Price: prices[i%5], Denom: "acoin", Amt: amt})
+		} else {
+			pre = append(pre, Op{Kind: "place", Signer: b, AID: 0, BidType: ref.BidFixed, Price: "2", Denom: "acoin", Amt: amt})
+		}
+	}
+	al := &Alphabet{Bidders: []string{"bid1", "bid2"}, MaxK: 4, BlockStops: []int{2, 3, 4}}
+	if batch {
+		al.BatchPrices, al.ManyAmts, al.WorthAmts = []string{"2"}, []string{"2"}, []string{"5"}
+	} else {
+		al.FixedAmts = []string{"2"}
+	}
+	bud := Budget{"bid": 1, "block": 3}
+	if tier == "thorough" {
+		bud = Budget{"bid": 2, "block": 3, "tick": 1}
+	}
+	return scenFrom(name, cfg, pre, bud, al, nil).tagged("ledger")
+}
+
+// S14: more than a hundred auctions alive at once (103 waiting fixed-price auctions created in the
+// preamble by two auctioneers, the last ones with a vesting schedule; the menu creates one more): the
+// block hook has to open, settle and pay out every one of them, the 101st included.
+func S14(tier string) *Scenario {
+	cfg := world.Config{Balances: map[string]sdk.Coins{
+		"auc1": coins("120acoin"), "auc2": coins("120acoin"), "bid1": coins("40acoin,40bcoin"),
+	}, Params: params("", "", 1)}
+	var pre []Op
+	for i := 0; i < 103; i++ {
+		op := Op{Kind: "create_fixed", Signer: []string{"auc1", "auc2"}[i%2], StartPrice: "1", Sell: "1acoin", PayDenom: "bcoin", StartK: 2, EndK: 3}
+		if i >= 100 {
+			op.Sched = sched(4, 5)
+		}
+		pre = append(pre, op)
+	}
+	pre = append(pre,
+		Op{Kind: "add_allowed", AID: 1, Bidder: "bid1", Max: "1"},
+		Op{Kind: "add_allowed", AID: 101, Bidder: "bid1", Max: "1"},
+		Op{Kind: "add_allowed", AID: 102, Bidder: "bid1", Max: "1"},
+	)
+	al := &Alphabet{
+		Bidders: []string{"bid1"}, FixedAmts: []string{"1"},
+		Creates: []Op{{Kind: "create_fixed", Signer: "auc1", StartPrice: "1", Sell: "1acoin", PayDenom: "bcoin", StartK: 2, EndK: 3}},
+		MaxK:    5, BlockStops: []int{2, 3, 4, 5},
+	}
+	bud := Budget{"bid": 2, "block": 3, "create": 1}
+	return scenFrom("S14-hundred-live-auctions", cfg, pre, bud, al, nil)
+}
+
 // withEntryIDMismatch also offers AddAllowedBidders calls whose entry carries another auction's id.
 func (s *Scenario) withEntryIDMismatch() *Scenario {
 	if s.al != nil {
